@@ -14,11 +14,11 @@ pub struct Uuid(pub u8);
 #[derive(Clone, Copy, Debug, PartialEq, Eq, Hash)]
 pub struct StreamId(pub u8);
 #[derive(Clone, Copy, Debug)]
-pub struct IndexedState { pub streams: [Option<(Uuid, u64)>; 3] }
+pub struct IndexedState { pub streams: [Option<(Uuid, u64)>; 2] }
 impl WriterSet {
     /// contract of the open/closed stream-index lookup: the latest indexed (synced) version of the stream, if any
     pub fn read_stream_latest_version(&self, stream_id: &StreamId) -> Result<Option<StreamLatestVersion>, WriteError> {
-        Ok(self.indexed.streams[(stream_id.0 % 3) as usize].map(|(partition_key, version)| StreamLatestVersion { partition_key, version }))
+        Ok(self.indexed.streams[(stream_id.0 % 2) as usize].map(|(partition_key, version)| StreamLatestVersion { partition_key, version }))
     }
 }
 
@@ -104,17 +104,16 @@ mod verif {
     /// streams: Ok iff every expectation holds against the stream state EXTENDED by the earlier events of the same transaction and
     /// every touched stream has the transaction's partition key; the returned versions are the versions each event saw.
     #[kani::proof]
-    #[kani::unwind(6)]
+    #[kani::unwind(4)]
     fn ws_validate_event_versions() {
         let indexed = IndexedState { streams: [
             if kani::any() { Some((Uuid(kani::any::<u8>() % 2), kani::any())) } else { None },
-            if kani::any() { Some((Uuid(kani::any::<u8>() % 2), kani::any())) } else { None },
             if kani::any() { Some((Uuid(kani::any::<u8>() % 2), kani::any())) } else { None } ] };
         let np: usize = kani::any();
-        kani::assume(np <= 2);
+        kani::assume(np <= 1);
         let mut pend = Vec::new();
         // pending entries continue the indexed state of their stream (writer invariant)
-        let (ps0, ps1): (u8, u8) = (kani::any::<u8>() % 3, kani::any::<u8>() % 3);
+        let (ps0, ps1): (u8, u8) = (kani::any::<u8>() % 2, kani::any::<u8>() % 2);
         let (pk0, pk1): (u8, u8) = (kani::any::<u8>() % 2, kani::any::<u8>() % 2);
         let (pv0, pv1): (u64, u64) = (kani::any(), kani::any());
         kani::assume(pv0 < u64::MAX - 4 && pv1 < u64::MAX - 4);
@@ -129,8 +128,8 @@ mod verif {
         let key = Uuid(kani::any::<u8>() % 2);
         let n: usize = kani::any();
         kani::assume(n >= 1 && n <= 2);
-        let e0 = NewEvent { stream_id: StreamId(kani::any::<u8>() % 3), stream_version: any_ev() };
-        let e1 = NewEvent { stream_id: StreamId(kani::any::<u8>() % 3), stream_version: any_ev() };
+        let e0 = NewEvent { stream_id: StreamId(kani::any::<u8>() % 2), stream_version: any_ev() };
+        let e1 = NewEvent { stream_id: StreamId(kani::any::<u8>() % 2), stream_version: any_ev() };
         let events = [e0.clone(), e1.clone()];
         let r = ws.validate_event_versions(key, &events[..n]);
         // model walk
